@@ -159,6 +159,8 @@ let n_ops = ref 0
 let n_mismatch = ref 0
 let n_inconclusive = ref 0
 let n_panics_agreed = ref 0
+let n_monitor_fails = ref 0
+let mon_nodes = ref 0
 
 let node_at (i : int) : node =
   match List.nth_opt !world.w_nodes i with Some n -> n | None -> fail "no node %d" i
@@ -242,7 +244,7 @@ let exec (c : cursor) : outcome =
       Obs (obs_after_step i (step zc !world (WCatchup (nat_of_int i, m, kvs, mx, gc))) ~with_reply:false)
   | "SYN" ->
       let i = next_int c in
-      Obs (dump_message (create_syn_message !world.w_now (node_at i)))
+      Obs (dump_message (create_syn_message !world.w_now (node_at i)) ^ " | " ^ dump_node !world.w_now (node_at i))
   | "READ" ->
       let i = next_int c in
       let m = next_id c in
@@ -328,10 +330,11 @@ let () =
          case_name := String.sub line 5 (String.length line - 5);
          world := empty_world;
          skipping := false;
+         Monitor.reset_case ();
+         mon_nodes := 0;
          incr n_cases
        end
-       else if line.[0] = '=' then () (* observation of a skipped op *)
-       else if !skipping then ()
+       else if line.[0] = '=' then () (* stray observation *)
        else begin
          let op_line = !lineno in
          let c = cursor_of_line line in
@@ -342,7 +345,34 @@ let () =
            else "<missing observation>"
          in
          incr n_ops;
+         (try
+            let mc = cursor_of_line line in
+            (match next mc with
+             | "JOIN" ->
+                 (match parse_join mc with
+                  | WJoin (cfg, _) ->
+                      Monitor.on_join !mon_nodes { Monitor.self = cfg.cf_id; has_cb = cfg.cf_has_cb; pred = cfg.cf_pred } impl;
+                      incr mon_nodes
+                  | _ -> ())
+             | "SET" | "SETTTL" | "DEL" | "DELTTL" -> Monitor.on_local (next_int mc) impl ~is_write:true
+             | "GC" | "HB" -> Monitor.on_local (next_int mc) impl ~is_write:false
+             | "PROC" ->
+                 let i = next_int mc in
+                 let m = parse_message mc in
+                 Monitor.on_proc i m impl
+             | "EVAL" -> Monitor.on_eval (next_int mc) impl
+             | "SYN" -> Monitor.on_syn (next_int mc) impl
+             | "CATCHUP" -> Monitor.on_catchup (next_int mc) impl
+             | _ -> ());
+            List.iter
+              (fun f ->
+                incr n_monitor_fails;
+                Printf.printf "MONITOR-FAIL %s case=%s line=%d\n" f !case_name op_line)
+              (Monitor.take_fails ())
+          with Parse_error e ->
+            Printf.printf "MONITOR-PARSE-ERROR case=%s line=%d %s\n" !case_name op_line e);
          let model =
+           if !skipping then None else
            try (match exec c with Obs s -> Some s | Skip -> None) with
            | Oracle_miss w ->
                if impl = "PANIC" then Some ("<no abort: the model went on to ask the " ^ w ^ " oracle>")
@@ -370,5 +400,5 @@ let () =
        end
      done
    with End_of_file -> ());
-  Printf.printf "DONE cases=%d ops=%d mismatches=%d inconclusive=%d panics_agreed=%d\n" !n_cases !n_ops
-    !n_mismatch !n_inconclusive !n_panics_agreed
+  Printf.printf "DONE cases=%d ops=%d mismatches=%d inconclusive=%d panics_agreed=%d monitor_checks=%d monitor_fails=%d\n"
+    !n_cases !n_ops !n_mismatch !n_inconclusive !n_panics_agreed !Monitor.n_checks !n_monitor_fails
